@@ -105,6 +105,24 @@ globalThis.gift={ arr:[1,[2],3], fn:function(n){ return new Array(n).fill(0); },
   re:/a(b)/g, map:new Map([[1,2]]), ta:new Uint8Array([3,1,2]), bound:(function(){ return this.tag; }).bind({tag:'bound-r1'}), NoProto:(function(){ function F(){} F.prototype=1; return F; })(), date:new Date(0), gen:(function*(){ yield 1; })(), sub:(function(){ class A extends Array {} return A.from([1,2]); })() };
 "#;
 
+/// Self-checking census of engine-created objects against the intrinsics of the realm it runs in.
+const CENSUS: &str = include_str!("../../../../corpus/c20/census.js");
+
+/// Removes the census lines from `lines`; anything but the two "ok" lines is a violation.
+fn check_census(lines: Vec<String>, whom: &str, problems: &mut Vec<String>) {
+    let sync = lines.iter().find(|l| l.starts_with("census "));
+    let asy = lines.iter().find(|l| l.starts_with("census-async "));
+    if !sync.is_some_and(|l| l.starts_with("census ok ")) || !asy.is_some_and(|l| l.starts_with("census-async ok ")) {
+        problems.push(format!("{whom}: {lines:?}"));
+    }
+}
+
+fn census_in_context(ctx: &mut Context, host: &Host, whom: &str, problems: &mut Vec<String>) {
+    let mut lines = vec![];
+    entry(ctx, host, CENSUS, 0, 0, &mut lines);
+    check_census(lines, whom, problems);
+}
+
 pub fn generate(rng: &mut Rng, tier: Tier) -> Value {
     let kind = *rng.pick(&["replica", "replica", "contexts", "contexts", "realms"]);
     let n = rng.range(1, if tier == Tier::Quick { 3 } else { 5 }) as usize;
@@ -152,9 +170,10 @@ fn limits(ctx: &mut Context) {
 }
 
 /// Runs the observed program alone. Returns the event log.
-fn run_solo(sc: &Scenario) -> Vec<String> {
+fn run_solo(sc: &Scenario, problems: &mut Vec<String>) -> Vec<String> {
     let (mut ctx, host) = js::new_default_context();
     limits(&mut ctx);
+    census_in_context(&mut ctx, &host, "fresh context", problems);
     let mut log = vec![];
     for (i, p) in sc.parts.iter().enumerate() {
         entry(&mut ctx, &host, p, sc.budget, i, &mut log);
@@ -185,6 +204,13 @@ fn run_interleaved(sc: &Scenario, rep: &mut RunReport) -> Vec<String> {
     let (mut a, ha) = js::new_default_context();
     limits(&mut b);
     limits(&mut a);
+    {
+        let mut problems = vec![];
+        census_in_context(&mut b, &hb, "context next to a live neighbour", &mut problems);
+        for p in problems {
+            rep.violate("foreign-intrinsic", format!("{}: {p}", sc.name));
+        }
+    }
     let mut log = vec![];
     let mut dec = sc.decisions.iter().copied().cycle();
     let (mut ia, mut ib) = (0usize, 0usize);
@@ -299,6 +325,20 @@ fn run_realms(sc: &Scenario, sabotage: bool, rep: &mut RunReport) -> Vec<String>
     let mut log = vec![];
     let mut dec = sc.decisions.iter().copied().cycle();
     let mut ia = 0usize;
+    // each realm's engine-made objects carry that realm's intrinsics, whichever realm ran first
+    for (r, h, whom) in [(&r1, &h1, "realm 1"), (&r2, &h2, "realm 2 (after realm 1 ran the same census)")] {
+        let c = eval_in(&mut ctx, r, CENSUS);
+        let _ = ctx.run_jobs();
+        let mut problems = vec![];
+        let mut lines = h.trace.take();
+        if !c.starts_with("ok:") {
+            lines.push(format!("census completion {c}"));
+        }
+        check_census(lines, whom, &mut problems);
+        for p in problems {
+            rep.violate("foreign-intrinsic", format!("{}: {p}", sc.name));
+        }
+    }
     // hand-over: objects created in realm 1 are installed on realm 2's global
     log.push(format!("gift {}", eval_in(&mut ctx, &r1, REALM_GIFT)));
     {
@@ -383,10 +423,14 @@ pub fn execute(v: &Value) -> RunReport {
     let mut fp = Fp::default();
     match sc.kind.as_str() {
         "replica" => {
-            let r1 = run_solo(&sc);
+            let mut problems = vec![];
+            let r1 = run_solo(&sc, &mut problems);
             let keep = perturb(&sc, &mut rep);
-            let r2 = run_solo(&sc);
+            let r2 = run_solo(&sc, &mut problems);
             drop(keep);
+            for p in problems {
+                rep.violate("foreign-intrinsic", format!("{}: {p}", sc.name));
+            }
             rep.execs = 2;
             if r1 != r2 {
                 let at = r1.iter().zip(r2.iter()).position(|(a, b)| a != b).unwrap_or(r1.len().min(r2.len()));
@@ -400,7 +444,11 @@ pub fn execute(v: &Value) -> RunReport {
             }
         }
         "contexts" => {
-            let solo = run_solo(&sc);
+            let mut problems = vec![];
+            let solo = run_solo(&sc, &mut problems);
+            for p in problems {
+                rep.violate("foreign-intrinsic", format!("{}: {p}", sc.name));
+            }
             let inter = run_interleaved(&sc, &mut rep);
             rep.execs = 3;
             if solo != inter {
